@@ -55,8 +55,27 @@ def gen_case(rng):
     norms_in = [rng.choice([None, None, 'linear(0.5, 1)', 'minmax']) for _ in range(nin)]
     norms_out = [rng.choice([None, None, 'linear(2, -1)']) for _ in range(nout)]
     nsteps = rng.randint(2, 7)
-    return dict(nin=nin, alpha_lim=alpha_lim, beta_lim=beta_lim, kpl=kpl, nout=nout, kind=kind, domains=domains,
-                norms_in=norms_in, norms_out=norms_out, nsteps=nsteps, fseed=rng.randrange(10 ** 9))
+    # surrogate-fidelity (interpolator) entries of beta: indices that differ only there share grid, data and interpolant
+    surr_lim = tuple(rng.choice([1, 2]) for _ in range(rng.choice([0, 0, 1])))
+    return dict(nin=nin, alpha_lim=alpha_lim, beta_lim=beta_lim, surr_lim=surr_lim, kpl=kpl, nout=nout, kind=kind,
+                domains=domains, norms_in=norms_in, norms_out=norms_out, nsteps=nsteps + len(surr_lim) * 2,
+                fseed=rng.randrange(10 ** 9))
+
+
+def designed_cases(rng):
+    """index sets in which several indices with non-zero weight share model fidelity and data grid and differ only in the
+    surrogate-fidelity (interpolator) entry of beta — scripted, so that every run has them"""
+    base = dict(nin=1, alpha_lim=(1,), beta_lim=(2,), surr_lim=(2,), kpl=2, nout=2, kind='exp', domains=[(-1.0, 1.0)],
+                norms_in=[None], norms_out=[None, 'linear(2, -1)'], nsteps=0)
+    b0 = dict(base, alpha_lim=())
+    return [dict(base, fseed=rng.randrange(10 ** 9), script=[[0, 0, 0], [0, 0, 1], [0, 1, 0]]),
+            dict(b0, fseed=rng.randrange(10 ** 9), script=[[0, 0], [0, 1], [1, 0]]),
+            dict(b0, fseed=rng.randrange(10 ** 9), script=[[0, 0], [1, 0], [0, 1]]),
+            dict(b0, fseed=rng.randrange(10 ** 9), script=[[0, 0], [0, 1], [0, 2], [1, 0], [1, 1]]),
+            dict(b0, fseed=rng.randrange(10 ** 9), script=[[0, 0], [0, 1], [1, 0], [2, 0], [0, 2]]),
+            dict(base, nin=2, beta_lim=(1, 2), domains=[(0.0, 1.0), (2.0, 4.0)], norms_in=[None, 'minmax'],
+                 fseed=rng.randrange(10 ** 9),
+                 script=[[0, 0, 0, 0], [0, 0, 0, 1], [0, 0, 1, 0], [0, 0, 0, 2], [1, 0, 0, 0]])]
 
 
 def points_for(rng, comp, npts):
@@ -99,11 +118,17 @@ def run_case(ctx, res, case, lines, post):
     rng = random.Random(case['fseed'])
     f = make_f(random.Random(case['fseed'] + 1), case['nin'], case['nout'], case['kind'])
     out_names = [f'y{o}' for o in range(case['nout'])]
-    comp, rec = cc.build_component(f, case['nin'], out_names, case['alpha_lim'], case['beta_lim'], (),
-                                   case['domains'], case['norms_in'], case['norms_out'], case['kpl'],
-                                   vectorized=rng.random() < 0.5)
+    comp, rec = cc.build_component(f, case['nin'], out_names, case['alpha_lim'], case['beta_lim'],
+                                   tuple(case.get('surr_lim') or ()), case['domains'], case['norms_in'], case['norms_out'],
+                                   case['kpl'], vectorized=rng.random() < 0.5)
     try:
-        hist = cc.random_history(rng, comp, case['nsteps'])
+        if case.get('script'):
+            nal = len(case['alpha_lim'])
+            hist = [(tuple(i[:nal]), tuple(i[nal:])) for i in case['script']]
+            for a, b in hist:
+                comp.activate_index(a, b)
+        else:
+            hist = cc.random_history(rng, comp, case['nsteps'])
     except Exception as e:  # noqa: BLE001
         res.failures.append({'kind': 'activation-raised', 'input': case, 'observed': repr(e)[:300]})
         return
@@ -204,11 +229,12 @@ def run(ctx: core.Ctx, only=None) -> core.Result:
                 'domain; both modes. Lean model terms are rebuilt from x_grids and FRESH model calls only. non-trivial = '
                 'active set of >= 3 indices; distinct by full case description.')
     lines, post = [], []
-    cases = [o.get('input', o) for o in only] if only is not None else core.corpus_cases(ctx.prop) + [gen_case(ctx.rng) for _ in range(ctx.scale(24, 200))]
+    cases = [o.get('input', o) for o in only] if only is not None else core.corpus_cases(ctx.prop) + designed_cases(ctx.rng) + \
+        [gen_case(ctx.rng) for _ in range(ctx.scale(24, 200))]
     for case in cases:
         case = {k: (tuple(v) if k in ('alpha_lim', 'beta_lim') else v) for k, v in case.items()
                 if k in ('nin', 'alpha_lim', 'beta_lim', 'kpl', 'nout', 'kind', 'domains', 'norms_in', 'norms_out',
-                         'nsteps', 'fseed')}
+                         'nsteps', 'fseed', 'surr_lim', 'script')}
         with core.guarded(res, 'scenario-raised', case):
             run_case(ctx, res, case, lines, post)
     t = core.try_driver(['itp.snaptol 1'], res, 'Gen.snapTol')
